@@ -182,9 +182,20 @@ def rule_d(rep: Report) -> None:
 	r.check(whole and bool(calls(kx, '_collect_keyword')), 'all-rules-collected', kw.where, 'Rules.keywords no longer collects over every rule of the rule set (self.values())')
 	cmp_ = idx.mod(SYNTAX_PY).func('SyntaxParser._compare_token')
 	cx = X(cmp_)
+	from vlib.match import closure_fi
+	bodies = [cx] + [b for b in closure_fi(cmp_, 2)]
 	rx_calls = calls(cx, ('re.fullmatch', 're.match', 're.search'))
+	# a regexp terminal describes the WHOLE token. Only fullmatch says that for every pattern: `^(?:...)$` written as f'^{expr}$' anchors just the first
+	# and the last alternative of a top-level alternation (`0|[1-9]\d*` then accepts `0.5`, `False|True` accepts `Falsey`), match()/search() accept a prefix
+	matchers = [c_ for b in bodies for c_ in ast.walk(b) if isinstance(c_, ast.Call) and isinstance(c_.func, ast.Attribute) and c_.func.attr in ('fullmatch', 'match', 'search', 'findall')]
+	if not matchers:
+		r.skip('regexp-terminal-matches-whole-token', cmp_.where, '_compare_token (and helpers) no longer match regexp terminals with a re call')
+	for c_ in matchers:
+		r.check(c_.func.attr == 'fullmatch', 'regexp-terminal-matches-whole-token', (SYNTAX_PY, c_.lineno), f'regexp terminals are matched with `{unparse(c_)[:80]}`: {c_.func.attr}() (even with ^...$ pasted around the expression) does not require the whole token to match every alternative of the terminal: `digit := /0|[1-9]\\d*/` then accepts the token `0.5`, `boolean` accepts `Falsey`, and the ordered choice takes that alternative', unparse(c_)[:120])
 	if not rx_calls:
-		r.skip('keywords-excluded-from-regexp', cmp_.where, '_compare_token no longer matches regexp terminals with re.fullmatch')
+		rx_calls = [c_ for c_ in matchers if any(c_ is x for x in ast.walk(cx))]
+	if not rx_calls:
+		r.skip('keywords-excluded-from-regexp', cmp_.where, '_compare_token no longer matches regexp terminals directly (the match moved into a helper)')
 	for rc_ in rx_calls:
 		known = atoms(cx, rc_)
 		r.check(any(not p_ and isinstance(a, ast.Compare) and isinstance(a.ops[0], ast.In) and unparse(a.comparators[0]).endswith('rules.keywords') and unparse(a.left).endswith('.string') for a, p_ in known), 'keywords-excluded-from-regexp', cmp_.where, f'SyntaxParser._compare_token must refuse keywords for regexp terminals (conditions at the regexp match: {[(unparse(a), p_) for a, p_ in known]})', unparse(rc_))
